@@ -28,7 +28,7 @@ class C10(Prop):
             ">= 1 byte after the value; distinct by (buffer, flags) hash")
     ASSUMPTIONS = ["tails with bytes after an in-buffer terminator get no accept/reject verdict (the statement is silent), only position relations"]
     REQUIRED_CLASSES = ["nt_must_succeed", "nt_must_fail", "nt_open", "failure", "empty_buffer", "prefix_reparsed", "flag_relation_must_succeed",
-                        "flag_relation_must_fail", "raw_control_byte_in_string"]
+                        "flag_relation_must_fail", "raw_control_byte_in_string", "degenerate_buffer"]
 
     def budget(self, tier):
         return {"workers": 10, "examples": 1000 if tier == "quick" else 20000}
@@ -46,7 +46,13 @@ class C10(Prop):
             "rseed": st.integers(0, 2 ** 32 - 1),
             "bom": gens.chance(6),
             "lead": wsb,
-            "tail": st.sampled_from(TAILS),
+            # fixed shapes, or a run of n blanks (every n up to 130: block-wise skipping loops have their boundaries there) and k terminators
+            "tail": st.one_of(st.sampled_from(TAILS), st.sampled_from(TAILS),
+                              st.tuples(st.integers(0, 130), st.sampled_from([b" ", b"\n", b" \t", b"\r\n"]), st.integers(0, 3), st.sampled_from([b"", b"", b"x", b"\xc2\xa0", b"\xff"])).map(
+                                  lambda t: (t[1] * t[0])[:t[0]] + t[3] + b"\x00" * t[2])),
+            # degenerate buffers: a byte order mark alone or cut short, with and without a terminator
+            "special": st.one_of(st.none(), st.none(), st.none(), st.none(), st.none(), st.none(), st.none(), st.none(), st.none(),
+                                 st.sampled_from([BOM, BOM + b"\x00", BOM + b" ", BOM + b" \x00", b"\xef", b"\xef\xbb", b"\xef\xbb\x00", BOM + BOM, BOM + b"\xef", b" ", b"\x00", b"\x00\x00"])),
             "edit": st.one_of(st.none(), st.none(), st.tuples(
                 st.sampled_from(["delete", "insert", "replace", "dup", "swap", "truncate"]),
                 st.integers(0, 10 ** 6), st.sampled_from(list(EDIT_ALPHABET))).map(list)),
@@ -69,6 +75,9 @@ class C10(Prop):
         text = (BOM if case["bom"] else b"") + case["lead"] + body + case["tail"]
         if case["empty"]:
             text = b""
+        if case.get("special") is not None:
+            text = case["special"]
+            stats.cls("degenerate_buffer")
         for entry in (0, 1, 2, 3):
             if entry < 2:
                 data = cut0(text) + b"\x00"
